@@ -187,7 +187,31 @@ def check_collisions(ctx, case):
         if n_mismatch:
             ctx.check("R-MISMATCH-DETAILS", f"[{label}] every detail of the mismatch is in the outcome's details", case.node, bool(runs) and not mism, "; ".join(sorted(mism))[:900] or "no path",
                       examined=len(runs), construct=f"{Q}::mismatch-details {label}")
-    ctx.floor("R-UNIQUE-WRITE", 4, "collision scenarios")
+    # sparse sets of taken names: whatever subset of the names a generator could come up with the user has already used,
+    # three tracebacks are added next to them and every one of the user's details is still there
+    import itertools
+    t3 = cm.raised("error", "third")
+    pool = ["traceback", "traceback-1", "traceback-2", "traceback-3"]
+    subsets = [c for k in range(1, len(pool) + 1) for c in itertools.combinations(pool, k)]
+    if ctx.tier != "thorough":
+        subsets = [("traceback-2",), ("traceback-1",), ("traceback", "traceback-2"), ("traceback-1", "traceback-3"), ("traceback", "traceback-1", "traceback-3")]
+    for sub in subsets:
+        att = [("call", "addDetail", [("const", n), C(n)], []) for n in sub]
+        d, runs = cm.run_case(ctx, _script({"test": t1, "tearDown": t2, "cleanup": t3}, extra={"setUp": att}), **kw)
+        problems = set()
+        for r in runs:
+            oc, det = _details(r)
+            if det is None:
+                problems.add("there is not exactly one outcome with a details dict")
+                continue
+            for n in sub:
+                if (n, C(n)) not in det:
+                    problems.add(f"the user's detail {n!r} is {'replaced by ' + repr(dict(det)[n])[:80] if n in dict(det) else 'gone'} in the details of {oc}")
+            if len(_tracebacks(det)) != 3 or len(det) != len(sub) + 3:
+                problems.add(f"{len(_tracebacks(det))} traceback details next to the user's {len(sub)} (expected 3): names {[n for n, _ in det]}")
+        ctx.check("R-UNIQUE-WRITE", f"[the user has details named {', '.join(sub)}; three stages raise] three tracebacks are added, nothing is replaced", case.node, bool(runs) and not problems,
+                  "; ".join(sorted(problems))[:900] or "no path", examined=len(runs), construct=f"{Q}::collisions sparse {'+'.join(sub)}")
+    ctx.floor("R-UNIQUE-WRITE", 9, "collision scenarios")
     # the Twisted runner: the debug information of every unhandled Deferred is attached under a name of its own
     from . import c14
     core, res = c14.run_core_results(ctx, every_unhandled_has_debug_info=True)
